@@ -196,6 +196,14 @@ impl<T: ?Sized + Trace> Cc<T> {
     }
 }
 
+#[cfg(rust_cc_verif)]
+impl<T: ?Sized + Trace> Cc<T> {
+    #[inline(always)]
+    pub(crate) fn verif_inner(&self) -> NonNull<CcBox<T>> {
+        self.inner
+    }
+}
+
 impl<T: ?Sized + Trace> Clone for Cc<T> {
     /// Makes a clone of the [`Cc`] pointer.
     /// 
